@@ -34,6 +34,8 @@ pub mod persistence;
 pub mod range;
 pub mod recovery;
 pub mod ttl;
+#[cfg(feature = "verif")]
+mod verif_access;
 
 pub(super) struct VersionClock {
     hasher: RandomState,
